@@ -128,115 +128,139 @@ Fixpoint word_value (ps : list (Z * Z)) : Z :=
 Definition algo_name (a : algo) : string :=
   match a with XY => "XYRouting" | ID => "IdTable" | SRC => "SourceRouting" end.
 
+Definition desc_aw (d : desc) : Z := match d_protos d with p :: _ => p_addr p | [] => 0 end.
+Definition ri_offset (ri : rinfo) : option (Z * Z) :=
+  match ri_xy ri with Some (_, (_, (_, o))) => Some o | None => None end.
+
+(* endpoint enumeration: sorted by uid (stable), then NumEndpoints; width clog2(max value + 1) *)
+Definition emit_members (c : compiled) : list (string * Z) :=
+  sort_by (fun a b => snd a <? snd b) (map (fun n => (snake_to_camel (enum_name n), cn_uid n)) (c_nis c)).
+Definition emit_ep_enum (c : compiled) : Z * list (string * Z) :=
+  let members := emit_members c in
+  let nmem := Z.of_nat (length members) in
+  (clog2 (Z.max (fold_left Z.max (map snd members) 0) nmem + 1), members ++ [("NumEndpoints", nmem)]).
+
+Definition emit_sam_enum (sam : list (idv * (range * string))) : Z * list (string * Z) :=
+  (clog2 (Z.of_nat (length sam)),
+   map (fun p => (snake_to_camel (snd (snd (snd p))), Z.of_nat (fst p))) (enumerate (rev sam))).
+
+Definition emit_sam_rule (aw : Z) (e : idv * (range * string)) : sam_rule :=
+  let '(dst, (r, _)) := e in
+  {| sr_idx := dst; sr_start := r_start r; sr_end := r_end r;
+     sr_lw_s := aw; sr_dig_s := hex_digits aw (r_start r); sr_lw_e := aw; sr_dig_e := hex_digits aw (r_end r) |}.
+
+Definition by_id_desc {T} (key : T -> Z) (l : list T) : list T := rev (sort_by (fun a b => key a <? key b) l).
+Definition ni_key (n : cni) : Z := match cn_id n with IdN k => k | _ => 0 end.
+Definition routes_of (ri : rinfo) (n : cni) : list (Z * option (list (Z * Z))) :=
+  match find (fun p => str_eqb (fst p) (cn_name n)) (ri_routes ri) with Some (_, rs) => rs | None => [] end.
+Definition emit_word (rb : Z) (r : Z * option (list (Z * Z))) : word :=
+  {| w_width := rb; w_digits := rb; w_val := match snd r with Some ps => word_value ps | None => 0 end |}.
+(* RoutingTables: rows by id descending, columns by id descending *)
+Definition emit_tables (c : compiled) (ri : rinfo) : list (list word) :=
+  map (fun n => map (emit_word (ri_route_bits ri)) (by_id_desc (fun r : Z * option (list (Z * Z)) => fst r) (routes_of ri n)))
+      (by_id_desc ni_key (c_nis c)).
+
+Definition emit_route_cfg (d : desc) (ri : rinfo) (nsam : Z) : list (string * string) :=
+  let xab := match ri_xy ri with Some (xb, (_, (ab, _))) => (ab, ab + xb) | None => (0, 0) end in
+  [("RouteAlgo", algo_name (d_algo d)); ("UseIdTable", "1'b1");
+   ("XYAddrOffsetX", Z_to_string (fst xab)); ("XYAddrOffsetY", Z_to_string (snd xab));
+   ("IdAddrOffset", "0"); ("NumSamRules", Z_to_string nsam);
+   ("NumRoutes", match d_algo d with SRC => Z_to_string (ri_num_ep ri) | _ => "0" end)].
+
+Definition emit_axi_cfgs (c : compiled) : res (list (string * list (string * Z))) :=
+  if d_nw (c_desc c) then
+    match first_proto c (Some "narrow") "input", first_proto c (Some "narrow") "output",
+          first_proto c (Some "wide") "input", first_proto c (Some "wide") "output" with
+    | Some ni_, Some no_, Some wi_, Some wo_ => Ok [axi_cfg "AxiCfgN" ni_ no_; axi_cfg "AxiCfgW" wi_ wo_]
+    | _, _, _, _ => Err "AttributeError: a protocol direction is not used by any endpoint"
+    end
+  else
+    match first_proto c None "input", first_proto c None "output" with
+    | Some i_, Some o_ => Ok [axi_cfg "AxiCfg" i_ o_]
+    | _, _ => Err "AttributeError: a protocol direction is not used by any endpoint"
+    end.
+
+(* ports: once per endpoint descriptor (first instance), manager buses then subordinate buses *)
+Definition emit_ports (c : compiled) : list port_decl :=
+  let firsts := fold_left (fun acc n => if existsb (fun m => str_eqb (ep_name (cn_ep m)) (ep_name (cn_ep n))) acc
+                                        then acc else acc ++ [n]) (c_nis c) [] in
+  map (fun nm => {| pd_dir := "input"; pd_type := "logic"; pd_dims := []; pd_name := nm |})
+      ["clk_i"; "rst_ni"; "test_enable_i"] ++
+  flat_map (fun n => flat_map bus_ports (cn_mgr_buses n) ++ flat_map bus_ports (cn_sbr_buses n)) firsts.
+
+Definition emit_links (c : compiled) : list (string * string) :=
+  flat_map (fun e => let l := (e_src e, e_dst e) in
+              [("floo_req_t", req_name l); ("floo_rsp_t", rsp_name l)] ++
+              (if d_nw (c_desc c) then [("floo_wide_t", wide_name l)] else []))
+           (filter is_link (edges_view (c_graph c))).
+
+Definition emit_ni (d : desc) (off : option (Z * Z)) (n : cni) : ni_inst :=
+  let nw := d_nw d in
+  let flags_axi :=
+      if nw then
+        let mn := pick_bus nw "narrow" (cn_mgr_buses n) in let sn := pick_bus nw "narrow" (cn_sbr_buses n) in
+        let mw := pick_bus nw "wide" (cn_mgr_buses n) in let sw := pick_bus nw "wide" (cn_sbr_buses n) in
+        ([("ChimneyCfgN", (is_some sn, is_some mn)); ("ChimneyCfgW", (is_some sw, is_some mw))],
+         ni_bindings "axi_narrow_" mn sn ++ ni_bindings "axi_wide_" mw sw)
+      else
+        let mp := pick_bus nw "" (cn_mgr_buses n) in let sp_ := pick_bus nw "" (cn_sbr_buses n) in
+        ([("ChimneyCfg", (is_some sp_, is_some mp))], ni_bindings "axi_" mp sp_) in
+  {| ni_name := cn_name n; ni_module := if nw then "floo_nw_chimney" else "floo_axi_chimney";
+     Netlist.ni_id := id_sub (cn_id n) off;
+     ni_row := match d_algo d with SRC => Some (snake_to_camel (enum_name n)) | _ => None end;
+     ni_flags := fst flags_axi; ni_axi := snd flags_axi;
+     ni_req_o := req_name (cn_mgr_link n); ni_rsp_i := rsp_name (cn_mgr_link n);
+     ni_req_i := req_name (cn_sbr_link n); ni_rsp_o := rsp_name (cn_sbr_link n);
+     ni_wide_o := if nw then Some (wide_name (cn_mgr_link n)) else None;
+     ni_wide_i := if nw then Some (wide_name (cn_sbr_link n)) else None |}.
+
+Definition in_src (f : link -> string) (l : list (option link)) : list (list src) :=
+  map (fun o : option link => match o with Some x => [SSig (f x)] | None => [SZero] end) l.
+Definition out_sig (f : link -> string) (l : list (option link)) : list (list string) :=
+  map (fun o : option link => match o with Some x => [f x] | None => [] end) l.
+
+Definition emit_rt (d : desc) (ri : rinfo) (r : crt) : res rt_inst :=
+  let nw := d_nw d in
+  let off := ri_offset ri in
+  do _ <- if existsb (fun o : option link => is_some o) (cr_in r) then Ok tt
+          else Err "StopIteration: router without any incoming link";
+  let table := match d_algo d with
+               | ID => match find (fun p => str_eqb (fst p) (cr_name r)) (ri_tables ri) with
+                       | Some (_, rules) =>
+                           Some (snake_to_camel (cr_name r +++ "_map"),
+                                 (Z.of_nat (length rules), (Z.of_nat (length rules), (32, rules))))
+                       | None => None
+                       end
+               | _ => None
+               end in
+  Ok {| r_name := cr_name r; r_module := if nw then "floo_nw_router" else "floo_axi_router";
+        r_id := match cr_id r with Some i => Some (id_sub i off) | None => None end;
+        r_algo := algo_name (d_algo d); r_nroutes := cr_degree r;
+        r_nin := Z.of_nat (length (cr_in r)); r_nout := Z.of_nat (length (cr_out r));
+        r_map := table;
+        r_req_in := in_src req_name (cr_in r); r_rsp_out := out_sig rsp_name (cr_in r);
+        r_req_out := out_sig req_name (cr_out r); r_rsp_in := in_src rsp_name (cr_out r);
+        r_wide_in := if nw then in_src wide_name (cr_in r) else [];
+        r_wide_out := if nw then out_sig wide_name (cr_out r) else [] |}.
+
 Definition emit (c : compiled) (ri : rinfo) : res netlist :=
   let d := c_desc c in
-  let nw := d_nw d in
-  let aw := match d_protos d with p :: _ => p_addr p | [] => 0 end in
-  let off := match ri_xy ri with Some (_, (_, (_, o))) => Some o | None => None end in
-  (* endpoint enumeration: sorted by uid (stable), then NumEndpoints *)
-  let members := sort_by (fun a b => snd a <? snd b)
-                         (map (fun n => (snake_to_camel (enum_name n), cn_uid n)) (c_nis c)) in
-  let nmem := Z.of_nat (length members) in
-  let ep_enum := (clog2 (Z.max (fold_left Z.max (map snd members) 0) nmem + 1), members ++ [("NumEndpoints", nmem)]) in
+  let aw := desc_aw d in
   let sam := ri_sam ri in
   let nsam := Z.of_nat (length sam) in
   do _ <- if nsam =? 0 then Err "ValueError: max() of an empty address map" else Ok tt;
-  let sam_enum := (clog2 nsam, map (fun p => (snake_to_camel (snd (snd (snd p))), Z.of_nat (fst p))) (enumerate (rev sam))) in
-  let sam_rules := map (fun e => let '(dst, (r, _)) := e in
-                                 {| sr_idx := dst; sr_start := r_start r; sr_end := r_end r;
-                                    sr_lw_s := aw; sr_dig_s := hex_digits aw (r_start r);
-                                    sr_lw_e := aw; sr_dig_e := hex_digits aw (r_end r) |}) sam in
-  (* routing tables of the network interfaces (SRC): rows by id descending, columns by id descending *)
-  let tables :=
-      match d_algo d with
-      | SRC =>
-          let by_id_desc {T} (key : T -> Z) (l : list T) := rev (sort_by (fun a b => key a <? key b) l) in
-          let rows := by_id_desc (fun n : cni => match cn_id n with IdN k => k | _ => 0 end) (c_nis c) in
-          Some (map (fun n =>
-                       let routes := match find (fun p => str_eqb (fst p) (cn_name n)) (ri_routes ri) with
-                                     | Some (_, rs) => rs
-                                     | None => []
-                                     end in
-                       map (fun r => {| w_width := ri_route_bits ri; w_digits := ri_route_bits ri;
-                                        w_val := match snd r with Some ps => word_value ps | None => 0 end |})
-                           (by_id_desc (fun r : Z * option (list (Z * Z)) => fst r) routes)) rows)
-      | _ => None
-      end in
-  let xab := match ri_xy ri with Some (xb, (_, (ab, _))) => (ab, ab + xb) | None => (0, 0) end in
-  let route_cfg := [("RouteAlgo", algo_name (d_algo d)); ("UseIdTable", "1'b1");
-                    ("XYAddrOffsetX", Z_to_string (fst xab)); ("XYAddrOffsetY", Z_to_string (snd xab));
-                    ("IdAddrOffset", "0"); ("NumSamRules", Z_to_string nsam);
-                    ("NumRoutes", match d_algo d with SRC => Z_to_string (ri_num_ep ri) | _ => "0" end)] in
-  do axi_cfgs <-
-     (if nw then
-        match first_proto c (Some "narrow") "input", first_proto c (Some "narrow") "output",
-              first_proto c (Some "wide") "input", first_proto c (Some "wide") "output" with
-        | Some ni_, Some no_, Some wi_, Some wo_ => Ok [axi_cfg "AxiCfgN" ni_ no_; axi_cfg "AxiCfgW" wi_ wo_]
-        | _, _, _, _ => Err "AttributeError: a protocol direction is not used by any endpoint"
-        end
-      else
-        match first_proto c None "input", first_proto c None "output" with
-        | Some i_, Some o_ => Ok [axi_cfg "AxiCfg" i_ o_]
-        | _, _ => Err "AttributeError: a protocol direction is not used by any endpoint"
-        end);
-  (* ports: once per endpoint descriptor (first instance), manager buses then subordinate buses *)
-  let firsts := fold_left (fun acc n => if existsb (fun m => str_eqb (ep_name (cn_ep m)) (ep_name (cn_ep n))) acc
-                                        then acc else acc ++ [n]) (c_nis c) [] in
-  let fixed := map (fun nm => {| pd_dir := "input"; pd_type := "logic"; pd_dims := []; pd_name := nm |})
-                   ["clk_i"; "rst_ni"; "test_enable_i"] in
-  let ports := fixed ++ flat_map (fun n => flat_map bus_ports (cn_mgr_buses n) ++ flat_map bus_ports (cn_sbr_buses n)) firsts in
-  let link_edges := filter is_link (edges_view (c_graph c)) in
-  let links := flat_map (fun e => let l := (e_src e, e_dst e) in
-                           [("floo_req_t", req_name l); ("floo_rsp_t", rsp_name l)] ++
-                           (if nw then [("floo_wide_t", wide_name l)] else [])) link_edges in
-  let nis := map (fun n =>
-      let flags_axi :=
-          if nw then
-            let mn := pick_bus nw "narrow" (cn_mgr_buses n) in let sn := pick_bus nw "narrow" (cn_sbr_buses n) in
-            let mw := pick_bus nw "wide" (cn_mgr_buses n) in let sw := pick_bus nw "wide" (cn_sbr_buses n) in
-            ([("ChimneyCfgN", (is_some sn, is_some mn)); ("ChimneyCfgW", (is_some sw, is_some mw))],
-             ni_bindings "axi_narrow_" mn sn ++ ni_bindings "axi_wide_" mw sw)
-          else
-            let mp := pick_bus nw "" (cn_mgr_buses n) in let sp_ := pick_bus nw "" (cn_sbr_buses n) in
-            ([("ChimneyCfg", (is_some sp_, is_some mp))], ni_bindings "axi_" mp sp_) in
-      {| ni_name := cn_name n; ni_module := if nw then "floo_nw_chimney" else "floo_axi_chimney";
-         Netlist.ni_id := id_sub (cn_id n) off;
-         ni_row := match d_algo d with SRC => Some (snake_to_camel (enum_name n)) | _ => None end;
-         ni_flags := fst flags_axi; ni_axi := snd flags_axi;
-         ni_req_o := req_name (cn_mgr_link n); ni_rsp_i := rsp_name (cn_mgr_link n);
-         ni_req_i := req_name (cn_sbr_link n); ni_rsp_o := rsp_name (cn_sbr_link n);
-         ni_wide_o := if nw then Some (wide_name (cn_mgr_link n)) else None;
-         ni_wide_i := if nw then Some (wide_name (cn_sbr_link n)) else None |}) (c_nis c) in
-  do rts <- mapM (fun r =>
-      do _ <- if existsb (fun o : option link => is_some o) (cr_in r) then Ok tt
-              else Err "StopIteration: router without any incoming link";
-      let in_src (f : link -> string) := map (fun o : option link => match o with Some l => [SSig (f l)] | None => [SZero] end) in
-      let out_sig (f : link -> string) := map (fun o : option link => match o with Some l => [f l] | None => [] end) in
-      let table := match d_algo d with
-                   | ID => match find (fun p => str_eqb (fst p) (cr_name r)) (ri_tables ri) with
-                           | Some (_, rules) =>
-                               Some (snake_to_camel (cr_name r +++ "_map"),
-                                     (Z.of_nat (length rules), (Z.of_nat (length rules), (32, rules))))
-                           | None => None
-                           end
-                   | _ => None
-                   end in
-      Ok {| r_name := cr_name r; r_module := if nw then "floo_nw_router" else "floo_axi_router";
-            r_id := match cr_id r with Some i => Some (id_sub i off) | None => None end;
-            r_algo := algo_name (d_algo d); r_nroutes := cr_degree r;
-            r_nin := Z.of_nat (length (cr_in r)); r_nout := Z.of_nat (length (cr_out r));
-            r_map := table;
-            r_req_in := in_src req_name (cr_in r); r_rsp_out := out_sig rsp_name (cr_in r);
-            r_req_out := out_sig req_name (cr_out r); r_rsp_in := in_src rsp_name (cr_out r);
-            r_wide_in := if nw then in_src wide_name (cr_in r) else [];
-            r_wide_out := if nw then out_sig wide_name (cr_out r) else [] |}) (c_rts c);
-  Ok {| nl_name := "floo_" +++ d_name d +++ "_noc"; n_nw := nw; n_algo := algo_name (d_algo d);
-        n_ep_enum := ep_enum; n_sam_enum := sam_enum;
+  do axi_cfgs <- emit_axi_cfgs c;
+  do rts <- mapM (emit_rt d ri) (c_rts c);
+  Ok {| nl_name := "floo_" +++ d_name d +++ "_noc"; n_nw := d_nw d; n_algo := algo_name (d_algo d);
+        n_ep_enum := emit_ep_enum c; n_sam_enum := emit_sam_enum sam;
         n_id_bits := match d_algo d with XY => None | _ => Some (ri_id_bits ri) end;
         n_xy_bits := match ri_xy ri with Some (xb, (yb, _)) => Some (xb, (yb, 1)) | None => None end;
         n_route_bits := match d_algo d with SRC => Some (ri_route_bits ri) | _ => None end;
-        n_aw := aw; n_sam_num := nsam; n_sam := sam_rules; n_tables := tables; n_route_cfg := route_cfg;
-        n_axi_cfgs := axi_cfgs; n_ports := ports; n_links := links; n_nis := nis; n_rts := rts |}.
+        n_aw := aw; n_sam_num := nsam; n_sam := map (emit_sam_rule aw) sam;
+        n_tables := match d_algo d with SRC => Some (emit_tables c ri) | _ => None end;
+        n_route_cfg := emit_route_cfg d ri nsam;
+        n_axi_cfgs := axi_cfgs; n_ports := emit_ports c; n_links := emit_links c;
+        n_nis := map (emit_ni d (ri_offset ri)) (c_nis c); n_rts := rts |}.
 
 (* ---------------------------------------------------------------- the whole pipeline *)
 Definition run (sp : oracle) (d : desc) : res netlist :=
